@@ -121,7 +121,26 @@ static inline int spec_abuf_wf(const NC *ncp)   /* size_used == sum of req_size 
            (ncp->abuf->tail == 0 || ncp->abuf->occupy_table[ncp->abuf->tail - 1].is_used);
 }
 
+static inline int spec_usage_exact(const NC *ncp)   /* property level: usage reported == bytes of bputs still pending */
+{
+    long long s = 0;
+    for (int k = 0; k < NL; k++) if (ncp->abuf->occupy_table[k].is_used) s += ncp->abuf->occupy_table[k].req_size;
+    return ncp->abuf->size_used == s;
+}
+int g_pre_usage_exact;   /* ghost: the accounting was exact before the call */
+static inline int spec_hole_below_live(void)     /* input class of known finding F15: a cancelled bput lies below one that stays pending */
+{
+    for (int k = 0; k < NL; k++) for (int m = 0; m < NL; m++) if (k < m && old_lead[k].abuf_index >= 0 && old_lead[m].abuf_index >= 0) {
+        int hk = CANCEL_ALL_V, hm = CANCEL_ALL_V;
+        for (int i = 0; i < NR; i++) { if (old_ids[i] != NC_REQ_NULL && old_ids[i] == old_lead[k].id) hk = 1; if (old_ids[i] != NC_REQ_NULL && old_ids[i] == old_lead[m].id) hm = 1; }
+        if (hk && !hm) return 1;
+    }
+    return 0;
+}
 int ncmpio_cancel(void *ncdp, int num_req, int *req_ids, int *statuses)
+#ifdef EXCLUDE_F15
+__CPROVER_requires(!spec_hole_below_live())
+#endif
 #ifdef CANCEL_ALL
 __CPROVER_requires((num_req == NC_REQ_ALL || num_req == (KIND ? NC_GET_REQ_ALL : NC_PUT_REQ_ALL)) && G >= 0 && G < NL)
 #else
@@ -166,6 +185,7 @@ __CPROVER_ensures(g_swap_cnt[G] == ((KIND == 0 && spec_named(G) && (old_lead[G].
 /* C13: attached-buffer slot released, accounting well-formed */
 __CPROVER_ensures(IMPLIES(KIND == 0 && old_lead[G].abuf_index >= 0, ((NC*)ncdp)->abuf->occupy_table[old_lead[G].abuf_index].is_used == (spec_named(G) ? 0 : 1))) /*@C13_abuf_slot_released_iff_cancelled*/
 __CPROVER_ensures(IMPLIES(KIND == 0, spec_abuf_wf((NC*)ncdp))) /*@C13_abuf_accounting_wellformed*/
+__CPROVER_ensures(IMPLIES(KIND == 0 && g_pre_usage_exact, spec_usage_exact((NC*)ncdp))) /*@C13_usage_equals_bytes_of_pending_buffered_puts*/
 /* C17: datatypes of cancelled get requests are released */
 __CPROVER_ensures(IMPLIES(KIND == 1, g_type_live == __CPROVER_old(g_type_live) - spec_types_of_named())) /*@C17_datatypes_of_cancelled_requests_freed*/
 ;
@@ -215,6 +235,7 @@ void harness(void)
     else { nc.put_lead_list = leads; nc.put_list = reqs; nc.numLeadPutReqs = NL; nc.numPutReqs = NT; nc.get_lead_list = NULL; nc.get_list = NULL; nc.numLeadGetReqs = 0; nc.numGetReqs = 0; }
     for (int i = 0; i < NR; i++) { IN_reqid[i] = nondet_int(); __CPROVER_assume(IN_reqid[i] >= -1 && IN_reqid[i] < 1000); ids[i] = IN_reqid[i]; old_ids[i] = ids[i]; sts[i] = 12345; }
     for (int k = 0; k < NL; k++) g_swap_cnt[k] = 0;
+    g_pre_usage_exact = spec_usage_exact(&nc);
 #ifdef CANCEL_ALL
     int r = ncmpio_cancel(&nc, CANCEL_ALL, NULL, NULL);   /* concrete constant: NC_REQ_ALL or the kind's ALL */
     CANARY(r == NC_NOERR, "all_cancelled");
